@@ -24,3 +24,13 @@ def scn_run(prefix):
     """directed scenarios whose name starts with `prefix` (harness/scn.go)"""
     return dict(mode="scn", n_quick=1, n_thorough=1, shards_quick=1, shards_thorough=3,
                 env_quick={"VERIF_SCN": prefix}, env_thorough={"VERIF_SCN": prefix})
+
+
+def fault_run(nq=150, nt=400, sq=4, st=10, focus=None, whale=False):
+    """history mode with fault injection (oracle outages, long block gaps, price shocks); optionally every history has whales"""
+    r = hist_run(nq, nt, sq, st, focus=focus)
+    for k in ("env_quick", "env_thorough"):
+        r[k]["VERIF_FAULTS"] = "1"
+        if whale:
+            r[k]["VERIF_WHALE"] = "1"
+    return r
